@@ -139,6 +139,23 @@ def runningProcess (acl : Option Acl) (a : Option Addr) : Option (List Nat) :=
   | none => none
   | some x => aclProcess x a
 
+/-! ### the chain `start_server` assembles -/
+
+/-- `MiddlewareChain.process_request`: components are consulted in order, the first rejection is the answer
+    (a component's verdict: `none` = admits, `some line` = refuses with that line) -/
+def chainFirst : List (Option (List Nat)) → Option (List Nat)
+  | [] => none
+  | none :: r => chainFirst r
+  | some l :: _ => some l
+
+/-- class names of the components in the order `start_server` appends them:
+    CertificateAuth, AccessControl, RateLimiter -/
+def chainOrder : List (List Nat) := [[67, 101, 114, 116, 105, 102, 105, 99, 97, 116, 101, 65, 117, 116, 104], [65, 99, 99, 101, 115, 115, 67, 111, 110, 116, 114, 111, 108], [82, 97, 116, 101, 76, 105, 109, 105, 116, 101, 114]]
+
+/-- the verdict of the assembled chain, given each component's own verdict on the request
+    (a component that is not configured counts as admitting) -/
+def serverChain (cert acl limiter : Option (List Nat)) : Option (List Nat) := chainFirst [cert, acl, limiter]
+
 /-! ### specification and theorems -/
 def Spec (allow deny : List Net) (dflt : Bool) (a : Addr) : Prop :=
   (¬ ∃ d ∈ deny, d.contains a = true) ∧ ((∃ n ∈ allow, n.contains a = true) ∨ (allow = [] ∧ dflt = true))
